@@ -143,7 +143,18 @@ func budget(ck *Check, tier string) time.Duration {
 func worker(id string, ck *Check, tier string, k, n int, outdir string) int {
 	c := &Ctx{ID: id, Tier: tier, Quick: tier == "quick", Seed: seed(), K: k, N: n, R: evid.NewResult(),
 		Deadline: time.Now().Add(budget(ck, tier)), curPath: filepath.Join(outdir, fmt.Sprintf("w%d.cur", k)), savePath: filepath.Join(outdir, fmt.Sprintf("w%d", k)), Param: os.Getenv("VERIF_PARAM")}
-	ck.Run(c)
+	// a panic on the harness's own goroutine is a defect of the harness (generator assertion, missing metric ...),
+	// not of the code under test: exit 3 = broken. Panics on server goroutines cannot be recovered here and kill
+	// the process with the runtime's exit status 2; the parent turns those into crash violations.
+	func() {
+		defer func() {
+			if r := recover(); r != nil {
+				fmt.Fprintf(os.Stderr, "HARNESS PANIC: %v\n", r)
+				os.Exit(3)
+			}
+		}()
+		ck.Run(c)
+	}()
 	if err := c.R.Save(filepath.Join(outdir, fmt.Sprintf("w%d", k))); err != nil {
 		fmt.Fprintln(os.Stderr, err)
 		return 2
@@ -242,6 +253,11 @@ func runWorkers(id, tier, bin string, n int, outdir, param string, merged *evid.
 				return
 			}
 			// worker died without a result
+			if ee, ok := err.(*exec.ExitError); ok && ee.ExitCode() == 3 {
+				fmt.Fprintf(os.Stderr, "BROKEN: worker %d reported a harness failure:\n%s\n", k, tailFile(filepath.Join(outdir, fmt.Sprintf("w%d.stderr", k)), 3000))
+				broken = true
+				return
+			}
 			tail := tailFile(filepath.Join(outdir, fmt.Sprintf("w%d.stderr", k)), 6000)
 			cur, _ := os.ReadFile(filepath.Join(outdir, fmt.Sprintf("w%d.cur", k)))
 			if i := strings.IndexByte(string(cur), '\n'); i >= 0 {
